@@ -17,5 +17,5 @@ missing = [t for t in base["stable_pass"] if t not in passed]
 print(f"baseline: {len(base['stable_pass']) - len(missing)}/{len(base['stable_pass'])} stable tests pass; {len(passed)} passed in total")
 for t in missing[:40]:
     print("  NOT PASSING:", t)
-subprocess.run("cd /repo && git status --short | grep -v '^??' >/dev/null; rm -f /repo/band.em", shell=True)
+subprocess.run("cd /repo && rm -f band.em tests/test_data/wedgeutils_data/wedge_mask.em", shell=True)
 sys.exit(1 if missing else 0)
